@@ -104,12 +104,33 @@ class ExprMixin:
         if name in self.special:
             return self.special[name]
         if fr.globals is not None and name in fr.globals:
-            return fr.globals[name]
+            return self.lift_global(fr.globals[name])
         if name in self.reg_namespace:
             return self.reg_namespace[name]
         if hasattr(builtins, name):
             return getattr(builtins, name)
         raise Unsupported(f"{fr.qualname}:{self.line(node)} unknown name '{name}'")
+
+    @property
+    def fresh_ids(self):
+        f = getattr(self, "_fresh_ids", None)
+        if f is None:
+            f = self._fresh_ids = set()
+            self._fresh_keep = []
+        return f
+
+    def lift_global(self, obj):
+        """Module-level singletons with a class model (e.g. formulae.config.config) become symbolic objects
+        whose fields satisfy the class's declared types; one object per path."""
+        fac = getattr(self.reg, "global_objects", {}).get(id(obj))
+        if fac is None:
+            return obj
+        cache = getattr(self, "global_cache", None)
+        if cache is None:
+            cache = self.global_cache = {}
+        if id(obj) not in cache:
+            cache[id(obj)] = fac(self)
+        return cache[id(obj)]
 
     # ------------------------------------------------------------------ expressions
     def ev(self, node):
@@ -128,7 +149,9 @@ class ExprMixin:
         return tuple(self.ev_seq(node.elts))
 
     def ev_List(self, node):
-        return list(self.ev_seq(node.elts))
+        v = list(self.ev_seq(node.elts))
+        self.fresh_ids.add(id(v))
+        return v
 
     def ev_seq(self, elts):
         out = []
@@ -145,6 +168,7 @@ class ExprMixin:
 
     def ev_Dict(self, node):
         d = {}
+        self.fresh_ids.add(id(d))
         for k, v in zip(node.keys, node.values):
             if k is None:
                 inner = self.ev(v)
@@ -599,6 +623,8 @@ class ExprMixin:
             raise Unsupported(f"{self.frame.qualname}:{self.line(node)} no field '{attr}' on {base.cls}")
         if isinstance(base, SData):
             return self.data_attr(base, attr, node)
+        if isinstance(base, SSlice) and attr in ("start", "stop"):
+            return getattr(base, attr)
         if isinstance(base, SExc):
             return BoundMethod(base, attr)
         h = getattr(base, "getattr", None)
